@@ -28,11 +28,14 @@ extern "C" void h_unset_table()
         __CPROVER_assert(s == SEVERITY_NULL, "C15 an unset OPTIONAL attribute is always accepted");
     else if (in_strict)
         __CPROVER_assert(s == SEVERITY_INCOMPLETE, "C15 strict mode: an unset required attribute makes the instance incomplete");
-    else if (substitutable(g_base)) {
+    else if (substitutable(g_base) && (in_shape < 2 || g_base == STRING_TYPE)) {
         __CPROVER_assert(s == SEVERITY_USERMSG, "C15 lenient mode: unset required INTEGER/REAL/NUMBER/STRING is accepted with a user message");
         if (g_base == INTEGER_TYPE) __CPROVER_assert(iv == 0, "C15 lenient INTEGER substitute is 0");
         if (g_base == REAL_TYPE || g_base == NUMBER_TYPE) __CPROVER_assert(rv == 0.0, "C15 lenient REAL/NUMBER substitute is 0");
         if (g_base == STRING_TYPE) __CPROVER_assert(sv == "''", "C15 lenient STRING substitute is the empty string literal");
+    } else if (substitutable(g_base)) {
+        /* empty (not $) numeric parameter: the property's literal text asks for substitution here too; see known_findings.json */
+        __CPROVER_assert(s == SEVERITY_USERMSG, "C15 lenient mode, EMPTY numeric parameter (',' or ')' instead of '$'): accepted with a user message");
     } else
         __CPROVER_assert(s == SEVERITY_INCOMPLETE, "C15 lenient mode: every other kind of unset required attribute is incomplete");
 }
